@@ -11,17 +11,18 @@ From TL Require Import Lib.Base Lib.GenTypes Model.SrpTypes Gen.SrpGen Model.Srp
 
 Record squirks := {
   q_py_hash_in_string : bool;        (* count_loc drops every stripped line starting with #, also inside multi-line strings *)
-  q_ts_loc_raw_span : bool;          (* TS/JS count_loc = end - start + 1 (blank and comment lines included) *)
   q_ts_nonpublic_counted : bool;     (* private / protected / #private methods are counted *)
   q_ts_accessor_counted : bool;      (* get accessors are counted *)
-  q_ts_abstract_skipped : bool;      (* only class_declaration nodes are analysed: abstract classes never *)
-  q_rs_trait_first_ident : bool;     (* impl target = first type_identifier child: the trait name in `impl Tr for T` *)
-  q_rs_generic_impl_lost : bool;     (* impl<T> Foo<T>: the self type is a generic_type node, no target found *)
+  q_ts_block_comment_counted : bool; (* TS/JS count_loc only drops // lines: block comment lines count as code *)
   q_rs_name_collision : bool;        (* impl blocks matched to structs by bare name across modules *)
   q_rs_block_comment_counted : bool; (* _node_loc only drops // lines: block comment lines count as code *)
 }.
-Definition ideal : squirks := Build_squirks false false false false false false false false false.
-Definition all_on : squirks := Build_squirks true true true true true true true true true.
+(* Repaired in /repo (fix: commits 447c6e4, 24b8b61, c90fc92) and therefore no longer quirks: abstract classes skipped,
+   impl target = trait name, generic impls lost, TS line count = raw span.  The model now reads the class node types,
+   the impl-target rule and the line-count rule from the generated layer (ts_class_node_types, rs_target_mode,
+   ts_loc_mode), so reverting a fix makes the model follow the source again and the theorems fail. *)
+Definition ideal : squirks := Build_squirks false false false false false false.
+Definition all_on : squirks := Build_squirks true true true true true true.
 
 (* ------------------------------------------------------------------ configuration (config.py, linter_utils.py) *)
 Record conf := { cf_mm : nat; cf_ml : nat; cf_enabled : bool; cf_check : bool; cf_keywords : list string }.
@@ -50,10 +51,12 @@ Definition from_dict (s : section) (language : string) : conf :=
 (* ------------------------------------------------------------------ metrics dictionary, evaluate_metrics, message *)
 Inductive mval := MN (n : nat) | MS (s : string) | MB (b : bool).
 
-Definition metrics_of (d : list (string * mtag)) (name : string) (mc loc : nat) (kw : bool) (line0 col : nat) : list (string * mval) :=
+(* line0 / col: start of the node; hline0 / hcol: start of its keyword (header) *)
+Definition metrics_of (d : list (string * mtag)) (name : string) (mc loc : nat) (kw : bool) (line0 col hline0 hcol : nat) : list (string * mval) :=
   map (fun e => (fst e, match snd e with
                         | TName => MS name | TMethodCount => MN mc | TLoc => MN loc | THasKeyword => MB kw
                         | TLine p => MN (line0 + p) | TColumn => MN col
+                        | THLine p => MN (hline0 + p) | THColumn => MN hcol
                         end)) d.
 
 Definition get_nat (env : list (string * mval)) (k : string) : option nat :=
@@ -101,8 +104,8 @@ Definition render_message (env : list (string * mval)) (issues : list string) : 
                          end) srp_message).
 
 (* _create_violation_if_needed + build_violation *)
-Definition class_rep (d : list (string * mtag)) (name : string) (mc loc : nat) (kw : bool) (line0 col : nat) (c : conf) : list rep :=
-  let env := metrics_of d name mc loc kw line0 col in
+Definition class_rep (d : list (string * mtag)) (name : string) (mc loc : nat) (kw : bool) (line0 col hline0 hcol : nat) (c : conf) : list rep :=
+  let env := metrics_of d name mc loc kw line0 col hline0 hcol in
   match evaluate env c with
   | [] => []
   | issues =>
@@ -147,7 +150,7 @@ Definition py_count_loc (q : squirks) (lines : list line) (c : cls) : nat :=
 
 Definition py_class_rep (q : squirks) (cfg : conf) (lines : list line) (c : cls) : list rep :=
   class_rep py_metrics_dict (c_name c) (py_count_methods c) (py_count_loc q lines c)
-            (has_kw py_kw_mode (cf_keywords cfg) (c_name c)) (c_line c) (c_col c) cfg.
+            (has_kw py_kw_mode (cf_keywords cfg) (c_name c)) (c_line c) (c_col c) (c_line c) (c_col c) cfg.
 
 Definition py_report (q : squirks) (cfg : conf) (f : sfile) : list rep :=
   flat_map (py_class_rep q cfg (f_lines f)) (filter (fun _ => smem "ClassDef" py_class_node_types) (f_classes f)).
@@ -176,23 +179,31 @@ Definition ts_countable (q : squirks) (m : member) : bool :=
   && (q_ts_accessor_counted q || negb (accessor (m_kind m))).
 Definition ts_count_methods (q : squirks) (c : cls) : nat := List.length (filter (ts_countable q) (c_members c)).
 
-(* start_point row = c_line - 1, end_point row = c_line + c_len - 2 *)
+Definition ts_line_counts (q : squirks) (pfx : string) (x : line) : bool :=
+  text_counts pfx x && (q_ts_block_comment_counted q || negb (lkind_eqb (l_kind x) LBlockComment)).
+
+(* the class node starts c_deco lines above its keyword: start_point row = c_line - c_deco - 1,
+   end_point row = start row + c_len - 1 *)
 Definition ts_count_loc (q : squirks) (lines : list line) (c : cls) : nat :=
-  if q_ts_loc_raw_span q then (c_line c + c_len c - 2) - (c_line c - 1) + ts_loc_span_plus
-  else List.length (filter is_code (slice (c_line c - 1) (c_line c + c_len c - 1) lines)).
+  let r0 := c_line c - c_deco c - 1 in
+  let r1 := c_line c - c_deco c + c_len c - 2 in
+  match ts_loc_mode with
+  | LocSpan plus => r1 - r0 + plus
+  | LocFilter lo hi pfx => List.length (filter (ts_line_counts q pfx) (slice (r0 - lo) (r1 + hi) lines))
+  end.
 
 Definition ts_class_name (c : cls) : string :=
   if smem "type_identifier" ts_class_name_node_types then c_name c else "UnnamedClass".
 
 Definition ts_class_rep (q : squirks) (cfg : conf) (lines : list line) (c : cls) : list rep :=
   class_rep ts_metrics_dict (ts_class_name c) (ts_count_methods q c) (ts_count_loc q lines c)
-            (has_kw ts_kw_mode (cf_keywords cfg) (ts_class_name c)) (c_line c - 1) (c_col c) cfg.
+            (has_kw ts_kw_mode (cf_keywords cfg) (ts_class_name c)) (c_line c - c_deco c - 1) (c_col c) (c_line c - 1) (c_col c) cfg.
 
-Definition ts_found (q : squirks) (c : cls) : bool :=
-  String.eqb (ts_class_node (c_kind c)) ts_class_node_type || (negb (q_ts_abstract_skipped q) && is_abstract (c_kind c)).
+(* find_all_classes: the nodes whose type is one of the types walked *)
+Definition ts_found (c : cls) : bool := smem (ts_class_node (c_kind c)) ts_class_node_types.
 
 Definition ts_report (q : squirks) (cfg : conf) (f : sfile) : list rep :=
-  flat_map (ts_class_rep q cfg (f_lines f)) (filter (ts_found q) (f_classes f)).
+  flat_map (ts_class_rep q cfg (f_lines f)) (filter ts_found (f_classes f)).
 
 (* ------------------------------------------------------------------ Rust *)
 Definition rs_member_node (k : mkind) : string := match k with MField => "const_item" | _ => "function_item" end.
@@ -215,17 +226,28 @@ Definition impl_nodes (i : rimpl) : list (string * string) :=
 Definition first_of_type (ty : string) (nodes : list (string * string)) : string :=
   match find (fun n => String.eqb (fst n) ty) nodes with Some n => snd n | None => "" end.
 
-(* get_impl_target_name *)
-Definition rs_target (q : squirks) (i : rimpl) : string :=
-  let t := first_of_type rs_target_node_type (if q_rs_trait_first_ident q then impl_nodes i else self_nodes i) in
-  if String.eqb t "" then (if q_rs_generic_impl_lost q then "" else if i_generic i then i_self i else "") else t.
+(* get_impl_target_name on an impl_item.  The `type` field of an impl_item is its self type: a type_identifier, or
+   a generic_type whose own `type` field is the type_identifier *)
+Definition rs_target (i : rimpl) : string :=
+  match rs_target_mode with
+  | TargetFirst ty => first_of_type ty (impl_nodes i)
+  | TargetField gty ty loop_ty =>
+    let field_ty := if i_generic i then (if String.eqb "generic_type" gty then "type_identifier" else "generic_type") else "type_identifier" in
+    if String.eqb field_ty ty then i_self i else first_of_type loop_ty (impl_nodes i)
+  end.
 
+(* get_impl_target_name on a struct_item (no `type` field): the first child of the loop's node type *)
+Definition rs_struct_key (s : rstruct) : string :=
+  let ty := match rs_target_mode with TargetFirst ty => ty | TargetField _ _ loop_ty => loop_ty end in
+  if String.eqb "type_identifier" ty then s_name s else "".
+
+(* _extract_type_name: the reported name *)
 Definition rs_struct_name (s : rstruct) : string :=
-  if String.eqb "type_identifier" rs_target_node_type then s_name s else "anonymous".
+  if String.eqb "type_identifier" rs_struct_name_node_type then s_name s else "anonymous".
 
 (* impl_map.get(name of the struct) *)
 Definition rs_assoc (q : squirks) (s : rstruct) (i : rimpl) : bool :=
-  String.eqb (rs_struct_name s) (rs_target q i) && negb (String.eqb (rs_target q i) "")
+  String.eqb (rs_struct_key s) (rs_target i) && negb (String.eqb (rs_target i) "")
   && (q_rs_name_collision q || path_eqb (s_path s) (i_path i)).
 
 Definition rs_line_counts (q : squirks) (x : line) : bool :=
@@ -240,7 +262,7 @@ Definition rs_struct_rep (q : squirks) (cfg : conf) (f : sfile) (s : rstruct) : 
   class_rep rs_metrics_dict (rs_struct_name s)
             (list_sum (map (fun i => List.length (filter rs_countable (i_members i))) impls))
             (rs_node_loc q (f_lines f) (s_line s) (s_len s) + list_sum (map (fun i => rs_node_loc q (f_lines f) (i_line i) (i_len i)) impls))
-            (has_kw rs_kw_mode (cf_keywords cfg) (rs_struct_name s)) (s_line s - 1) (s_col s) cfg.
+            (has_kw rs_kw_mode (cf_keywords cfg) (rs_struct_name s)) (s_line s - 1) (s_col s) (s_line s - 1) (s_col s) cfg.
 
 Definition rs_report (q : squirks) (cfg : conf) (f : sfile) : list rep :=
   flat_map (rs_struct_rep q cfg f) (filter (fun _ => String.eqb "struct_item" rs_struct_node_type) (f_structs f)).
